@@ -998,6 +998,8 @@ fn inject_outcome(cfg: &Cfg, ops: &[Op], at: usize, pkt: &crate::wire::Pkt) -> O
     merge_solo_stats(&mut o, &a);
     o.log = b.w.log.clone();
     if !injected {
+        // the plain history itself may have tripped a monitor (e.g. an allowed send refused)
+        o.viol = a.w.viol.clone();
         return o;
     }
     o.nontrivial = true;
